@@ -59,3 +59,13 @@ def toFilesystem (sane : Str) : Except Str (List Str) :=
 
 end Path
 end Radicale
+
+namespace Radicale
+namespace Path
+
+/-- `check_token_name` of `sync()`: 64 lower-case hex digits -/
+def checkTokenName (t : Str) : Bool :=
+  t.length == 64 && t.all (fun c => "0123456789abcdef".toList.contains c)
+
+end Path
+end Radicale
